@@ -151,7 +151,7 @@ SMALL = st.sampled_from([0, 0, 0, 0, 1, 1, 1, 2, 2, 3, 4, 5, 7])
 # parent selector: 0 = the most recently created class (chains), larger = older classes
 PARENT = st.sampled_from([0, 0, 0, 1, 1, 2, 3, 4, 6, 8])
 CASEV = st.integers(0, 3)
-BAD_METHOD = ["", "foo", "line", "whole ", "anim", 0, 1, 2.5, True, False, ["whole"], {"bytes": "lines"}]
+BAD_METHOD = ["", "", "", "foo", "line", "whole ", "anim", 0, 1, 2.5, True, False, ["whole"], {"bytes": "lines"}]
 JPEG_OK = [-1, -5, 0, 1, 50, 75, 94, 95]
 JPEG_BAD = [96, 100, 1000, "50", 50.0, None, [50]]
 RFF_OK = [False, False, True]
@@ -206,7 +206,7 @@ def _rm_ops(class_unset, late=False):
         (S - 1, _set(RENDER_METHOD, "i", _method_tok())),
         (U, _set(RENDER_METHOD, "i", st.none())),
         (1, _unset(RENDER_METHOD, "i")),
-        (1, _set(RENDER_METHOD, "i", st.sampled_from(BAD_METHOD))),
+        (2, _set(RENDER_METHOD, "i", st.sampled_from(BAD_METHOD))),
         (4, _render_op()),
     ]
     if class_unset:
